@@ -43,6 +43,15 @@ var curCall *ssa.CallCommon
 
 func init() {
 	boolT := types.Typ[types.Bool]
+	// context.Context.Done(): the same channel on every call (documented:
+	// "successive calls to Done return the same value"), no side effect
+	trustedIfaceModels["context.Context.Done"] = func(e *Enc, fr *frame, st *State, recv Value, args []Value, prefix string, rt types.Type) Value {
+		fn := "pm_" + sanitize("context.Context.Done")
+		e.v.declFun(fn, "("+e.u.sortOf(recv.typ)+") "+e.u.sortOf(rt))
+		r := e.q.define(prefix, e.u.sortOf(rt), "("+fn+" "+recv.term+")")
+		st.assume("(<= 0 " + r + ")")
+		return Value{term: r, typ: rt}
+	}
 	trustedModelWrites["io.ReadFull"] = func(e *Enc, c *ssa.CallCommon) []string {
 		return []string{e.elemKey(types.Typ[types.Uint8])}
 	}
@@ -221,21 +230,25 @@ func init() {
 		"context.WithTimeout": func(e *Enc, fr *frame, st *State, a []Value, p string, rt types.Type) Value {
 			r := e.freshValue(st, p, rt)
 			st.assume("(and (not (= (itag " + r.tuple[0].term + ") 0)) (not (= " + r.tuple[1].term + " 0)))")
+			ctxDerived(e, st, a[0], r.tuple[0], r.tuple[1].term)
 			return r
 		},
 		"context.WithValue": func(e *Enc, fr *frame, st *State, a []Value, p string, rt types.Type) Value {
 			r := e.freshValue(st, p, rt)
 			st.assume("(not (= (itag " + r.term + ") 0))")
+			ctxDerived(e, st, a[0], r, "")
 			return r
 		},
 		"context.WithDeadline": func(e *Enc, fr *frame, st *State, a []Value, p string, rt types.Type) Value {
 			r := e.freshValue(st, p, rt)
 			st.assume("(and (not (= (itag " + r.tuple[0].term + ") 0)) (not (= " + r.tuple[1].term + " 0)))")
+			ctxDerived(e, st, a[0], r.tuple[0], r.tuple[1].term)
 			return r
 		},
 		"context.WithCancel": func(e *Enc, fr *frame, st *State, a []Value, p string, rt types.Type) Value {
 			r := e.freshValue(st, p, rt)
 			st.assume("(and (not (= (itag " + r.tuple[0].term + ") 0)) (not (= " + r.tuple[1].term + " 0)))")
+			ctxDerived(e, st, a[0], r.tuple[0], r.tuple[1].term)
 			return r
 		},
 		// io.ReadFull(r, buf): buf is overwritten with unknown bytes; n == len(buf) iff err == nil
@@ -560,4 +573,16 @@ func referenceLanguages() map[string]string {
 		out[name+"-wildcard"] = "(re.++ " + star + " (re.* (re.++ " + dot + " " + star + ")))"
 	}
 	return out
+}
+
+// ctxDerived records the cancellation relation of the context package: the
+// returned cancel function (if any) cancels the new context, and so does every
+// function that cancels its parent.
+func ctxDerived(e *Enc, st *State, parent, ctx Value, cancel string) {
+	e.v.declFun("ctx_cancels", "(Int Iface) Bool")
+	f := e.q.freshBound("f")
+	st.assume(fmt.Sprintf("(forall ((%[1]s Int)) (! (=> (ctx_cancels %[1]s %[2]s) (ctx_cancels %[1]s %[3]s)) :pattern ((ctx_cancels %[1]s %[3]s))))", f, parent.term, ctx.term))
+	if cancel != "" {
+		st.assume("(ctx_cancels " + cancel + " " + ctx.term + ")")
+	}
 }
